@@ -58,7 +58,35 @@ pub fn gen_ev(r: &mut Rng, thorough: bool, cx: &mut Ctx) {
     let big: &[usize] = if thorough { &[65535, 65534, 65535, 32768, 28672, 28666] } else { &[65535, 28666] };
     for n in big { let mut v = vec![4, r.u16b(), r.u16b(), *n as u64]; v.extend(r.bytes(*n).iter().map(|b| *b as u64)); cx.emit(&v); }
 }
+// A codec is a pure function: nothing an earlier decode (encode) did may show in a later encode (decode).  Before its first case the EV
+// stream therefore lets the process 'hear traffic' - every decoder reads reference encodings of events of its kind and their perturbations
+// (each byte after the event code set to 0xff, 0x02, 0x80 in turn), results discarded - and the DEC stream first encodes events of every kind.
+fn heard_traffic() {
+    static ONCE: std::sync::Once = std::sync::Once::new();
+    ONCE.call_once(|| {
+        let mut r = Rng::new(0x0072_6166_6669_6301);
+        for kind in 0..16u64 { for _ in 0..12 {
+            let p = ref_encode(&gen_event(&mut r, kind, 12));
+            let _ = crate::guarded(|| { let _ = decode(kind, &p); });
+            for i in 2..p.data.len().min(24) { for x in [0xffu8, 0x02, 0x80] {
+                let mut q = p.clone(); q.data[i] = x;
+                let _ = crate::guarded(move || { let _ = decode(kind, &q); });
+            } }
+        } }
+    });
+}
+fn sent_traffic() {
+    static ONCE: std::sync::Once = std::sync::Once::new();
+    ONCE.call_once(|| {
+        let mut r = Rng::new(0x0072_6166_6669_6302);
+        for kind in 0..16u64 { for _ in 0..12 {
+            let l = gen_event(&mut r, kind, 12);
+            let _ = crate::guarded(move || { let _ = ev_of(&l).to_packet(); });
+        } }
+    });
+}
 pub fn exec_ev(case: &[u64]) -> L {
+    heard_traffic();
     let e = ev_of(case);
     let p = e.to_packet();
     let mut o = vec![];
@@ -166,6 +194,7 @@ pub fn gen_dec(r: &mut Rng, thorough: bool, cx: &mut Ctx) {
     gen_packets(r, thorough, &mut |k, p| emit_dec(cx, k, p));
 }
 pub fn exec_dec(case: &[u64]) -> L {
+    sent_traffic();
     let (p, _) = parse_packet(&case[1..]);
     // marked case (a message event from 0xbeef with code 0xbeef): the decoders have a long life behind them in this process - 70000 rejections of each
     // reason and 70000 acceptances before this decode (a pure function keeps nothing from them)
